@@ -3,8 +3,8 @@
    re-checked against it.  Nothing else lives here. *)
 From RV.Model Require Import Base Word Limbs Bytes DivRecip DivSmall Redc.
 From RV.Gen Require Import Prim Scalar.
-From RV.Model Require Add Mul UDiv.
-From RV.Proofs Require Import PfGenScalar PfGenAdd PfGenMul PfGenDiv PfGenSpecial.
+From RV.Model Require Add Mul UDiv Conv.
+From RV.Proofs Require Import PfGenScalar PfGenAdd PfGenMul PfGenDiv PfGenSpecial PfGenCtor.
 
 Theorem GenTie_source_equals_model :
   (forall bits, 0 <= bits -> bits + 63 < B -> g_nlimbs bits = Val (nlimbs bits)) /\
@@ -171,6 +171,25 @@ Proof.
               (g_next_multiple_of_eq bits a b H0 HB Ca Cb)).
 Qed.
 Print Assumptions GenTie_special_rs.
+
+(* constructors and associated consts (src/lib.rs, src/from.rs): the primitives uZERO / uMAX / uone
+   that stand for Self::ZERO / MAX / ONE in the other translated functions are what the translated
+   initialisers compute *)
+Theorem GenTie_ctor : forall bits l,
+  0 <= bits -> nlimbs bits <= B ->
+  g_from_limbs bits (nlimbs bits) l = Conv.from_limbs bits l /\
+  (wfU bits l -> g_from_limbs_unmasked bits (nlimbs bits) l = Val (masked bits l)) /\
+  g_ZERO bits (nlimbs bits) = Val (uZERO bits) /\
+  g_MAX bits (nlimbs bits) = Val (uMAX bits) /\
+  g_ONE bits (nlimbs bits) = Val (UDiv.uone bits).
+Proof.
+  intros bits l H0 HB.
+  exact (conj (g_from_limbs_eq bits l H0 HB)
+        (conj (g_from_limbs_unmasked_eq bits l H0 HB)
+        (conj (g_ZERO_eq bits H0 HB)
+        (conj (g_MAX_eq bits H0 HB) (g_ONE_eq bits H0 HB))))).
+Qed.
+Print Assumptions GenTie_ctor.
 
 (* the premises are satisfiable and the generated code computes: reciprocal(2^63) = 2^64 - 1 *)
 Example GenTie_nonvacuous :
